@@ -133,28 +133,29 @@ func (c *Client) ProcessCommand(ctx context.Context, cmd *RequestCommand) (*Resp
 	return channel.ProcessCommand(ctx, cmd)
 }
 
-func (c *Client) channelOK() bool {
+// usableChannel returns the current channel if it can be used, or nil otherwise.
+// The test and the value come from the same critical section, since the channel
+// may be replaced (or dropped) by another goroutine at any moment.
+func (c *Client) usableChannel() *ClientChannel {
 	c.mu.RLock()
 	defer c.mu.RUnlock()
 	if c.channel == nil || !c.channel.Established() {
-		return false
+		return nil
 	}
 	select {
 	case <-c.channel.RcvDone():
 		// The receiver is gone (for instance, after a receive error),
 		// so nothing would be read from this channel anymore.
-		return false
+		return nil
 	default:
-		return true
+		return c.channel
 	}
 }
 
 func (c *Client) getOrBuildChannel(ctx context.Context) (*ClientChannel, error) {
-	if c.channelOK() {
+	if channel := c.usableChannel(); channel != nil {
 		verifPoint("client.getorbuild.ok")
-		c.mu.RLock()
-		defer c.mu.RUnlock()
-		return c.channel, nil
+		return channel, nil
 	}
 
 	select {
@@ -168,10 +169,8 @@ func (c *Client) getOrBuildChannel(ctx context.Context) (*ClientChannel, error) 
 		<-c.lock
 	}()
 
-	if c.channelOK() {
-		c.mu.RLock()
-		defer c.mu.RUnlock()
-		return c.channel, nil
+	if channel := c.usableChannel(); channel != nil {
+		return channel, nil
 	}
 
 	count := 0.0
